@@ -18,11 +18,13 @@ from concurrent.futures import ThreadPoolExecutor
 
 from . import common, tlc
 
+# (front end, route prefix, storage, principal) - some principal names begin with the letters
+# of the route prefix they are served under
 HTTP_CONFIGS = [
-    ("wsgi", "/", "tree"), ("aiohttp", "/dav/", "tree"), ("aiohttp", "/", "bare"),
-    ("wsgi", "/a/b/", "bare"), ("aiohttp", "/a/b/", "tree"), ("wsgi", "/dav/", "treecfg"),
-    ("aiohttp", "/", "barecfg"), ("wsgi", "/", "bare"), ("aiohttp", "/", "tree"),
-    ("wsgi", "/dav/", "tree"), ("aiohttp", "/dav/", "bare"), ("wsgi", "/a/b/", "tree"),
+    ("wsgi", "/", "tree", "/user/"), ("aiohttp", "/dav/", "tree", "/dave/"), ("aiohttp", "/", "bare", "/user/"),
+    ("wsgi", "/a/b/", "bare", "/ab/"), ("aiohttp", "/a/b/", "tree", "/b/"), ("wsgi", "/dav/", "treecfg", "/ada/"),
+    ("aiohttp", "/", "barecfg", "/user/"), ("wsgi", "/", "bare", "/dave/"), ("aiohttp", "/", "tree", "/u/x/"),
+    ("wsgi", "/dav/", "tree", "/vdad/"), ("aiohttp", "/dav/", "bare", "/user/"), ("wsgi", "/a/b/", "tree", "/user/"),
 ]
 
 DAV_PROPS = ["C01", "C02", "C03", "C06", "C07", "C08", "C09", "C14", "C16", "C17"]
@@ -52,11 +54,11 @@ def _work(job):
                 prof["lock"] = 0
             tr, conc = davgen.run_random_session(job["seed"], prof,
                                                  frontend=job["cfg"][0], prefix=job["cfg"][1],
-                                                 backend=job["cfg"][2], audit_git=(kind != "fault"))
+                                                 backend=job["cfg"][2], audit_git=(kind != "fault"), principal=(list(job["cfg"]) + ["/user/"])[3])
         elif kind == "model":
             tr, conc = davreplay.replay_behaviour(job["behaviour"], job["seed"],
                                                   frontend=job["cfg"][0], prefix=job["cfg"][1],
-                                                  backend=job["cfg"][2])
+                                                  backend=job["cfg"][2], principal=(list(job["cfg"]) + ["/user/"])[3])
         elif kind == "store":
             tr, conc = storedriver.run_store_session(job["seed"], job["store"], job["profile"])
         else:
@@ -363,10 +365,12 @@ def _work_replay(job, r):
             prof["fault"] = 0.3
             prof["lock"] = 0
         return davgen.run_random_session(job["seed"], prof, frontend=job["cfg"][0], prefix=job["cfg"][1],
-                                         backend=job["cfg"][2], audit_git=(job["kind"] != "fault"))
+                                         backend=job["cfg"][2], audit_git=(job["kind"] != "fault"),
+                                         principal=(list(job["cfg"]) + ["/user/"])[3])
     if job.get("kind") == "store":
         return storedriver.run_store_session(job["seed"], job["store"], job["profile"])
     if job.get("kind") == "model":
         return davreplay.replay_rqs(job["rqs"], job["seed"], frontend=job["cfg"][0],
-                                    prefix=job["cfg"][1], backend=job["cfg"][2])
+                                    prefix=job["cfg"][1], backend=job["cfg"][2],
+                                    principal=(list(job["cfg"]) + ["/user/"])[3])
     return None
